@@ -158,7 +158,15 @@ def run(ctx):
                 disagreements.append({'input': {'entry': entry, 'source': src}, 'impl': 'accepted', 'model': str(x), 'op': 'rtcheck'})
                 continue
             rt['checked'] += 1
-            flags = [str(v) == '1' for v in x[1:6]]
+            flags = [str(v) == '1' for v in x[1:5]]
+            if entry == 'property':
+                # the model's text of the tree (`RawProperty.chars`) against the implementation's printed text: token for token is what
+                # the theorem needs (the scanner ignores the amount of white space); character for character is recorded
+                chars = str(x[5])
+                flags.append(canon_text(chars) == canon_text(src))
+                rt['printed_text_is_chars_exactly'] = rt.get('printed_text_is_chars_exactly', 0) + (chars == src)
+            else:
+                flags.append(str(x[5]) == '1')
             rt['printable'] += flags[0]; rt['toks_equal'] += flags[1]; rt['read_back'] += flags[2]
             if len(flags) > 3:      # hypotheses of the text-level theorems (Props/C06g-h expressions/predicates, C06k properties)
                 rt['literal_tokens_complete'] += flags[3]; rt['model_text_is_chars'] += flags[4]
